@@ -44,9 +44,7 @@ class MiniRocket(_PanelToTabularTransformer):
     ):
         self.num_features = num_features
         self.max_dilations_per_kernel = max_dilations_per_kernel
-        self.random_state = (
-            np.int32(random_state) if isinstance(random_state, int) else None
-        )
+        self.random_state = random_state
         super(MiniRocket, self).__init__()
 
     def fit(self, X, y=None):
@@ -72,7 +70,10 @@ class MiniRocket(_PanelToTabularTransformer):
                 )
             )
         self.parameters = _fit(
-            X, self.num_features, self.max_dilations_per_kernel, self.random_state
+            X,
+            self.num_features,
+            self.max_dilations_per_kernel,
+            np.int32(self.random_state) if isinstance(self.random_state, int) else None,
         )
         self._is_fitted = True
         return self
